@@ -33,18 +33,23 @@ func init() {
 		Required:  []string{"big-operand", "ratio-operand", "overflow-boundary", "float-compare"},
 		Bound: func(tier string) string {
 			if tier == engine.Thorough {
-				return fmt.Sprintf("all pairs over %d integers + %d ratios for 24 binary operators, all unary, expt exponent -3..70, ash shift -130..130, all triples over an 11-element subgrid for n-ary + * - < = <= max min, integer (grid + 12 precision-edge integers of the single and double formats) x adjacent single/double/long floats for 6 comparisons", len(intGrid()), len(ratGrid()))
+				return fmt.Sprintf("all pairs over %d integers + %d ratios for 24 binary operators, all unary, expt exponent -3..70, ash shift -130..130, all triples over an 11-element subgrid for n-ary + * - < = <= max min, integer (grid + 12 precision-edge integers of the single and double formats) x adjacent single/double/long floats for 6 comparisons", len(intGrid(engine.Thorough)), len(ratGrid()))
 			}
-			return fmt.Sprintf("all pairs over %d integers + %d ratios for 24 binary operators, all unary, expt exponent 0..20, ash shift on a 17-value grid, triples over a 6-element subgrid, integer x adjacent double floats for 6 comparisons", len(intGrid()), len(ratGrid()))
+			return fmt.Sprintf("all pairs over %d integers + %d ratios for 24 binary operators, all unary, expt exponent 0..20, ash shift on a 17-value grid, triples over a 6-element subgrid, integer (grid + 12 precision-edge integers) x adjacent single/double/long floats for 6 comparisons", len(intGrid(engine.Quick)), len(ratGrid()))
 		},
 	})
 }
 
 func pow2(n uint) *big.Int { return new(big.Int).Lsh(big.NewInt(1), n) }
 
-func intGrid() []*big.Int {
+func intGrid(tier string) []*big.Int {
 	var g []*big.Int
+	seen := map[string]bool{}
 	add := func(v *big.Int) {
+		if seen[v.String()] {
+			return
+		}
+		seen[v.String()] = true
 		g = append(g, v)
 		if v.Sign() != 0 {
 			g = append(g, new(big.Int).Neg(v))
@@ -72,6 +77,18 @@ func intGrid() []*big.Int {
 	b, _ := new(big.Int).SetString("fedcba9876543210fedcba9876543210fedcba9876543210ff", 16)
 	add(a)
 	add(b)
+	if tier == engine.Thorough {
+		// thorough: the neighbourhood of every representation boundary (word sizes, float mantissas, two and four
+		// words) and the small integers
+		for _, k := range []uint{7, 8, 15, 16, 24, 30, 33, 47, 48, 52, 54, 61, 65, 66, 95, 96, 127, 128, 129, 191, 192} {
+			add(new(big.Int).Sub(pow2(k), big.NewInt(1)))
+			add(pow2(k))
+			add(new(big.Int).Add(pow2(k), big.NewInt(1)))
+		}
+		for i := int64(4); i <= 12; i++ {
+			add(big.NewInt(i))
+		}
+	}
 	return g
 }
 
@@ -110,7 +127,7 @@ func ratText(r *big.Rat) string {
 }
 
 func enumerate(tier string, emit func(string)) {
-	ints := intGrid()
+	ints := intGrid(tier)
 	rats := ratGrid()
 	var all []string
 	for _, i := range ints {
